@@ -56,6 +56,8 @@ Proof. exact (list_inputs_complete_gen the_code the_guards the_chk_inputs the_ch
 Lemma the_repairs_present :
   k_fix_lookup the_code = true /\ k_fix_constref the_code = true /\ k_fix_nonj2 the_code = true /\ k_fix_suptpl the_code = true.
 Proof. repeat split; reflexivity. Qed.
+Lemma the_closure_repairs_present : k_fix_pyres the_code = true /\ k_fix_linkdir the_code = true.
+Proof. split; reflexivity. Qed.
 
 Theorem list_inputs_complete_live :
   forall c i, f_lc (c_flags c) = false -> rejected c = false -> ns_clash the_code c i = false ->
@@ -105,24 +107,21 @@ Definition w_inputs_constref : inputs :=
      i_lookup := [w_type 2 108 68 []]; i_root_dir := [[114]] |}.
 
 
-(* F-LIST-INPUTS-PYRES / F-LIST-INPUTS-SYMLINKDIR (until design_notes/C08_list_inputs_closure_fix.patch is in the tree): a .py
-   resource included by a class template, and a template below a symbolically linked sub-directory of --templates, are served
-   by the loader, influence the output and are not listed *)
+(* witnesses of the repaired F-LIST-INPUTS-PYRES / F-LIST-INPUTS-SYMLINKDIR (History/C08_history.v): a .py resource included by a
+   class template, and a template below a symbolically linked sub-directory of --templates; with the repairs both are listed *)
 Definition w_res_file (n : N) (py linked : bool) : tfile :=
   {| tf_name := [n]; tf_path := [[112]; [n]]; tf_j2 := negb py; tf_py := py; tf_pkg := false; tf_linked := linked; tf_cls := None;
      tf_refs := []; tf_dyn := false |}.
 Definition w_tpl_pyres : list tfile := [w_tfr 65 true (Some CAny) [[120]]; w_res_file 120 true false].
 Definition w_tpl_linked : list tfile := [w_tfr 65 true (Some CAny) [[120]]; w_res_file 120 false true].
-Lemma list_inputs_pyres_refuted_w : k_fix_pyres the_code = false -> k_fix_nonj2 the_code = true ->
-  let c := w_cfg SNever false (Some w_tpl_pyres) None in let x := [[112]; [120]] in
-  eff_trig_tpl the_code c w_inputs_plain = true
-  /\ path_in x (influence_set the_code c w_inputs_plain) = true /\ path_in x (listed c w_inputs_plain) = false.
-Proof. intros H H'. vm_compute in H, H'. first [discriminate H | discriminate H' | vm_compute; repeat split; reflexivity]. Qed.
-Lemma list_inputs_linkdir_refuted_w : k_fix_linkdir the_code = false ->
-  let c := w_cfg SNever false (Some w_tpl_linked) None in let x := [[112]; [120]] in
-  eff_trig_tpl the_code c w_inputs_plain = true
-  /\ path_in x (influence_set the_code c w_inputs_plain) = true /\ path_in x (listed c w_inputs_plain) = false.
-Proof. intros H. vm_compute in H. first [discriminate H | vm_compute; repeat split; reflexivity]. Qed.
+
+(* with the closure repairs the two witnesses are listed *)
+Lemma example_pyres_and_linked_listed :
+  path_in [[112]; [120]] (listed (w_cfg SNever false (Some w_tpl_pyres) None) w_inputs_plain) = true
+  /\ path_in [[112]; [120]] (listed (w_cfg SNever false (Some w_tpl_linked) None) w_inputs_plain) = true
+  /\ eff_trig_tpl the_code (w_cfg SNever false (Some w_tpl_pyres) None) w_inputs_plain = false
+  /\ eff_trig_tpl the_code (w_cfg SNever false (Some w_tpl_linked) None) w_inputs_plain = false.
+Proof. vm_compute. repeat split; reflexivity. Qed.
 
 (* F-LIST-INPUTS-SUPREFS: a --support-templates override that includes a further template of its directory; only the rendered
    resource is listed *)
